@@ -25,6 +25,8 @@ def gen_run(tier, fault=False):
         o["lso"] = draw(st.sampled_from(["tight", "tight", "default"]))
         # storage type of the pixel data (photographs are integer-typed); used when it holds the values
         case["mass"]["dtype"] = draw(st.sampled_from([None, None, None, None, "uint8", "uint16", "int32", "float32"]))
+        # the grid handed to the solver: built directly, or derived from the images (darsia.generate_grid)
+        g["via_image"] = draw(st.sampled_from([False, False, True]))
         if not fault and draw(st.integers(0, 11)) == 0:
             o["num_iter"] = 0  # only the initial Darcy flux: still mass-conserving, never converged
         if fault:
@@ -127,7 +129,8 @@ def _labels(case, extra=()):
             "aa" if o["aa_depth"] else "no-aa", "weighted" if case.get("weight") else "unweighted",
             "thin" if 1 in g["shape"] or len(g["shape"]) == 1 else "thick",
             "dtype-" + (case["mass"].get("dtype") or "float64") if not case["mass"].get("amp_exp") else "dtype-float64",
-            "no-iteration" if o["num_iter"] == 0 else "iterated") + tuple(extra)
+            "no-iteration" if o["num_iter"] == 0 else "iterated",
+            "grid-from-image" if g.get("via_image") else "grid-direct") + tuple(extra)
 
 
 def _nontrivial(case, info):
